@@ -294,8 +294,15 @@ fn check_c14(g: &G, sel: u64, mut vd: Verdict) -> Verdict {
     let mut m = src.clone();
     // the delimiter is left out; without whitespace next to it a blank takes its place, otherwise
     // the neighbours would glue into another token (comments do not end a name expression)
-    let fill = if ws_adj { "" } else { " " };
-    if !ws_adj {
+    // ... except where what follows cannot continue the name expression anyway: a macro quoting function or a quote
+    let glue_safe = d.tok == "ASSIGN" && {
+        let rest = src[d.off + d.len..].to_ascii_lowercase();
+        ["%str(", "%nrstr(", "%quote(", "%nrquote(", "%bquote(", "%nrbquote(", "%superq(", "\"", "'"].iter().any(|p| rest.starts_with(p))
+    };
+    let fill = if ws_adj || (glue_safe && sel % 2 == 0) { "" } else { " " };
+    if !ws_adj && fill.is_empty() {
+        vd.label("deleted-without-blank(glued to a quoting function / quote)");
+    } else if !ws_adj {
         vd.label("blank-in-place-of-delimiter");
     }
     m.replace_range(d.off..d.off + d.len, fill);
